@@ -14,7 +14,7 @@ from tools.props import c03_gen as G
 
 MANIFEST = {
     "level_text": "Coq theorems (Properties/C03.v, no axioms) about a Gallina transcription of parse_and_cache_all_files (walk, acceptance test on the directory components of the path below the project path, files that cannot be read or parsed are reported and skipped), the per-file loop under every iteration order of the AST cache, is_tauri_command on top-level Item::Fn, and one wrapper per CommandInfo: for every well-formed layout, every spelling of the project path and every file order, with no known-finding premise, the wrapper list is a permutation of the component-wise specification (annotated top-level functions of .rs files with no target/.git directory component); an unparsable or non-UTF-8 file removes exactly its own wrappers. The two formerly recorded defects (C03-1 root below target/.git, C03-2 non-UTF-8 file aborts the run) are repaired; their witnesses are positive theorems in Coq and ordinary regression cases of the corpus. The model is tied to /repo on every run: the real CLI (both modes) and the library analysis run on generated directory layouts and are compared with the extracted model; commands.ts is read back with the extracted module parser and judged by the extracted oracle.",
-    "level_note": "Trusted: Coq kernel; the tie between hand-written model and code is differential (bounded); syn is outside the model (a file is Parsed items / Unparsable / NotUtf8 and Path::strip_prefix(project_path) of a walked path is taken to give back the components below the root, which holds for every path WalkDir builds by joining; and the python printer renders items to Rust source); the AST cache (a HashMap keyed by path) is a list of the walked files and its iteration order an arbitrary permutation, which is exact when sibling names are distinct (layout_ok); Tera is modelled by one wrapper record per CommandInfo (the token-level template transcription of Model/Pipeline.v is related to it by a computed example and by the differential check, not by a general proof); the translated return type is whatever Model/Pipeline.ret_ts computes (its correctness is C05). Symlinks, unreadable directories, a project path that is a file, non-UTF-8 file names and Windows path separators are outside the model.",
+    "level_note": "Trusted: Coq kernel; the tie between hand-written model and code is differential (bounded); syn is outside the model (a file is Parsed items / Unparsable / NotUtf8 and Path::strip_prefix(project_path) of a walked path is taken to give back the components below the root, which holds for every path WalkDir builds by joining; and the python printer renders items to Rust source); the AST cache (a HashMap keyed by path) is a list of the walked files and its iteration order an arbitrary permutation, which is exact when sibling names are distinct (layout_ok); Tera is modelled by one wrapper record per CommandInfo (the token-level template transcription of Model/Pipeline.v is related to it by a computed example and by the differential check, not by a general proof); the translated return type is whatever Model/C03RetType.rt_ret_ts computes (own transcription of parse_type_structure with top-level comma splitting, the default type visitor and add_types_prefix with the recursive array branch; that the translation is the right one is C05); the Rust name of a command declared with a raw identifier is the identifier without r# (C03RetType.unraw in the model, C03Spec.rust_name in the specification, proved equal). Symlinks, unreadable directories, a project path that is a file, non-UTF-8 file names and Windows path separators are outside the model.",
     "technique": "Rocq/Coq proof over hand-written model + correspondence check (extracted OCaml vs real CLI and Rust harness)",
     "design_ref": "DESIGN.md section 5 C03, section 11 accepted_spec",
 }
@@ -22,6 +22,7 @@ MANIFEST = {
 RULE = ("layouts: random trees of 1-8 files, depth <= 4, directory names drawn from {target, .git, near misses, y.rs, ...}, "
         ".rs / non-.rs / odd file names, parsed / unparsable / non-UTF-8 contents, item mixes (top-level fns, impl methods, "
         "inline mods, other items; command attribute spellings, near-miss attributes, other attributes in any order), "
+        "function names incl. raw identifiers (r#type, r#match, r#move), return types over String/bool/i32/u8/f64/()/User/Item under Result/Option/Vec/HashMap/BTreeMap/tuples (depth <= 2, incl. Ok arms and tuple elements that print a comma and arrays of unions), "
         "x root spellings (absolute, relative, ./, ., trailing slash, roots below or named target/.git - the former class C03-1, now ordinary inputs); "
         "malformed: the same with mostly unparsable/non-UTF-8/odd files (non-UTF-8 .rs files, the former class C03-2, are ordinary inputs); paths: exhaustive enumeration of one command at every "
         "directory path of length <= 2 over {target,.git,src,targets,git} x 4 file names x 7 root spellings. Every case runs the "
